@@ -64,13 +64,8 @@ QUICK_ALPHA = [0, 1, 2, 3, 8, 10, 12, 13, 16, 17, 18, 20, 21, 22]
 
 
 def cases_batch(tier):
-    if tier == "thorough":
-        idx = list(range(len(ALPHA)))
-        lens = (1, 2, 3)
-    else:
-        idx = QUICK_ALPHA
-        lens = (1, 2, 3)
-    for n in lens:
+    idx = list(range(len(ALPHA)))
+    for n in (1, 2, 3):
         for combo in itertools.product(idx, repeat=n):
             body = B.dumps([ALPHA[i] for i in combo])
             ws = WORLDS if n < 3 or tier == "thorough" else (WORLDS[0], WORLDS[3], WORLDS[5], WORLDS[6])
@@ -96,10 +91,10 @@ LEGS = {"single": leg_single, "batch": leg_batch}
 
 META = {
     "technique": "bounded-exhaustive enumeration of request entries and batch compositions against a reference server model (type-exact id comparison)",
-    "rule": "single: 8 entry kinds x 18 id values (incl. absent) x {1.0,2.0} form; batch: every sequence of length <=3 over a 14-entry (quick) / "
-    "24-entry (thorough, plus length 4 over 14) alphabet whose ids cover every JSON type; x server version {1.0,2.0} x dispatch in {default, "
+    "rule": "single: 8 entry kinds x 18 id values (incl. absent) x {1.0,2.0} form; batch: every sequence of length <=3 over a 24-entry alphabet "
+    "(thorough: plus length 4 over 14 entries) whose ids cover every JSON type; x server version {1.0,2.0} x dispatch in {default, "
     "custom returning, custom raising, instance with raising _dispatch}; every case is non-trivial (each yields at least one id/count obligation)",
-    "bounds": {"quick": {"batch_len": 3, "alphabet": 14}, "thorough": {"batch_len": 4, "alphabet": 24}},
+    "bounds": {"quick": {"batch_len": 3, "alphabet": 24}, "thorough": {"batch_len": 4, "alphabet": 24}},
     "assumptions": [
         "ids are plain JSON values (no __jsonclass__ descriptors inside ids)",
         "float ids are compared by repr after a JSON round trip",
